@@ -621,9 +621,12 @@ Definition set_bundled_transport (id : Z) (t : transceiver) : transceiver :=
   mkTransceiver (t_kind t) (t_direction t) (t_mid t) (t_mline t) (t_offerDirection t) (t_currentDirection t)
                 (t_preferred t) (t_codecs t) (t_exts t) (t_hastrack t) true id.
 
+Definition is_av (kind : Z) : bool := Z.eqb kind 0 || Z.eqb kind 1.
+
 (* ---- application-facing configuration calls ---- *)
 (* addTrack (456-481) with a fresh track of the given kind *)
 Definition add_track (p : pc) (kind : Z) : res pc :=
+  if negb (is_av kind) then Crash else                (* InternalError: invalid track kind *)
   match find_idx (fun t => Z.eqb (t_kind t) kind && negb (t_hastrack t)) (p_trs p) with
   | Some i =>
       match nth_error (p_trs p) i with
@@ -637,6 +640,7 @@ Definition add_track (p : pc) (kind : Z) : res pc :=
 
 (* addTransceiver (483-511) *)
 Definition add_transceiver (p : pc) (kind : Z) (d : dir) (hastrack : bool) : res pc :=
+  if negb (is_av kind) then Crash else                (* InternalError: invalid track kind *)
   Ok (create_transceiver p d kind hastrack).
 
 (* createDataChannel (604-634), only its effect on the sctp transport *)
@@ -663,7 +667,6 @@ Definition pc_set_direction (p : pc) (i : nat) (d : dir) : res pc :=
   end.
 
 (* ---- media descriptions ---- *)
-Definition is_av (kind : Z) : bool := Z.eqb kind 0 || Z.eqb kind 1.
 Definition media_for_transceiver (t : transceiver) (d : dir) (mid : Z) (r : role) : media :=
   mkMedia (t_kind t) mid (Some d) (t_codecs t) (t_exts t) r.
 Definition media_for_sctp (mid : Z) (r : role) : media := mkMedia 2 mid None [] [] r.
